@@ -143,7 +143,10 @@ def limiterOpSwitch : List Bytes := [b!"switch io.op {case opAdd:if (io.accessed
 def closeFinisherShape : List Bytes := [b!"params:name,size", b!"if revalidate {return }", b!"ai:={accessTime:accessTime((time.Now().Unix()-s.startedAt)),sizeKilobytes:uint32((size/1024))}", b!"s.itemsChan<-&{op:opAdd,name:itemName(name),accessedItem:&ai}"]
 def finishAndNotifyShape : List Bytes := [b!"if (sw.closeFinisher!=nil) {sw.closeFinisher(sw.key.FsName(),sw.writtenSize)}", b!"sw.notify()"]
 
-/-- C17: every Get books the access under the key that was found -/
+/-- C17: every Get books the access under the key that was FOUND (the loop variable), with the stored size -/
+def getAccessCall : List Bytes := [b!"s.setAccessTime(key,sm.Size)"]
+
+/-- C17: setAccessTime books it under the key handed in -/
 def setAccessTimeShape : List Bytes := [b!"name:=itemName(key.FsName())", b!"item:={accessTime((time.Now().Unix()-s.startedAt)),uint32((size/1024))}", b!"storableItem:={time.Now().Unix(),uint32((size/1024))}", b!"s.itemsChan<-&{op:opAccessTime,name:name,accessedItem:&item,storableAccessedItem:&storableItem}"]
 
 end Spec
